@@ -1,14 +1,15 @@
 #!/bin/bash
+# usage: tools/reseed.sh [glob, e.g. "C06-*"] [seed]
 # re-confirm every stored seeded change against the current /repo HEAD and the current checks
 cd "$(dirname "$0")/.."
-for d in seeded/*/; do
+for d in seeded/${1:-*}/; do
   n=$(basename $d)
   props=$(python3 -c "
 import json,sys
 m=json.load(open('$d/meta.json'))
 oc=m.get('our_checks') or {}
 print(','.join(sorted(oc)) or m['property'])")
-  out=$(/venv/bin/python tools/seedcheck.py $d --props $props --store $n 2>&1 | tail -1)
+  out=$(/venv/bin/python tools/seedcheck.py $d --props $props --store $n --seed ${2:-1} 2>&1 | tail -1)
   echo "$n $(echo "$out" | python3 -c "
 import sys,json
 try:
